@@ -139,12 +139,14 @@ def build():
     STEP[5] = ("name-order", {"C02": "*", "C07": "*", "C08": "*"})
     STEP[6] = ("malformed-token-any-scan", {"C08": "*", "C02": "*"})
     STEP[7] = ("lookup-skip-then-overshoot", {"C16": "*", "C07": "*", "C06": "*"})
-    STEP_DEFS = {4: ["VC_STEP_MAXBUF=300"]}
+    STEP[8] = ("field-lookup-one-field", {"C07": "*", "C01": "*"})
+    STEP_DEFS = {4: ["VC_STEP_MAXBUF=300"], 8: ["VC_STEP_MAXBUF=24"]}
     # (the same step with max_depth 255 / symbolic and a state array of exactly that size does not fit in memory: the
     #  limit of the 8-bit depth counter at max_depth = 255 is NOT covered; max_depth in {1,2,3} is)
     for sc, (nm, pr) in STEP.items():
         J.append(Job("E2/step/" + nm, "E3", "contracts/h_step.c", "h_step", pr, defs=["VC_SCEN=%d" % sc] + STEP_DEFS.get(sc, []),
-                     cbmc_args=["--unwind", "9", "--unwindset", "_advance_parsing.0:%d" % (5 if sc == 7 else 3), "--unwinding-assertions", "--slice-formula"], timeout=1800, mem_gb=8,
+                     tier="thorough" if sc == 8 else "quick",    # scenario 8 (real lookup loop) takes 10-18 min
+                     cbmc_args=["--unwind", "9", "--unwindset", "_advance_parsing.0:%d,binson_parser_field_with_length.0:3" % (5 if sc == 7 else 3), "--unwinding-assertions", "--slice-formula"], timeout=1800, mem_gb=16 if sc == 8 else 8,
                      note="real _advance_parsing from a symbolic pre-state of one shape; the token loop provably runs <= 2 (scenario 7: 4) iterations (unwinding assertion), so this is COMPLETE for that shape; tokens within the first 64 bytes behind the cursor"))
 
     also_thorough("E2/step/next-scalar", {"C10": "*", "C06": "*"})
@@ -232,7 +234,7 @@ def build():
         uw = ["--unwind", str(unw), "--unwindset", "binson_parser_field_with_length.0:%d,ref_field.0:%d" % (n // 3 + 2, n // 3 + 2)]
         J.append(Job("E3/" + nm, "E3", "bounded/h_nav.c", "h_nav", pr, defs=defs,
                      cbmc_args=uw + ["--unwinding-assertions", "--no-standard-checks"],
-                     timeout=3600, mem_gb=2 if doc else (22 if heavy else 16), tier=tier,
+                     timeout=1200 if doc else 3600, mem_gb=8 if doc else (22 if heavy else 16), tier=tier,
                      note="BOUNDED: all valid %s-rooted documents of exactly %d bytes x call sequence %s (E enter root, N next, O/A go_into_object/array, o/a leave_object/array, R get_raw, F/G/H field lookups); memory-safety checks are off in this tier (they are decided by E1/E2)" % ("array" if root else "object", n, seq)))
         if doc and pinned_regular:
             J[-1].props.update(NAV_MORE)          # pinned runs are cheap: they serve the decode / latching tags too
